@@ -148,6 +148,32 @@ CHECKS['C18'] = dict(
         'Quick: enum names + first alias per unit; thorough: all ~200 spellings; unknown strings of 1..3 / 1..5 characters.',
    ref='3/C18')
 
+# harnesses added while testing against seeded changes (DESIGN 11); appended to level_note
+ALSO = {
+ 'C01': 'Also: C01.launch (cant of either sign, hold-over); C01.vacuum_fire - the real Vacuum atmosphere with segmented winds and coarse/fine record steps on carriers vs the closed-form parabola; '
+        'C01.drag_in_loop - every drag value the loop obtains vs the stateless table look-up on a carrier whose Mach number rises again across a table node.',
+ 'C02': 'C02.loop runs a failed search first on the same calculator (no state carried over); C02.witness zeroes through winds with a segment boundary short of the target (TEST strength).',
+ 'C03': 'Also carriers with head/tail/30 mph tail wind, lofted slow shot (D), inclined (default step too), canted to either side; obligation that the integration reaches the range. '
+        'C03.float_witness: default-step cards in true doubles for a grid of ranges (TEST strength; the only harness that sees rounding of the accumulated record distance).',
+ 'C04': 'Also: carrier fired backwards (95 deg) for last_distance; the last row violates the limit the reason names.',
+ 'C05': 'Also under metric preferences; C05.reuse: a second shot with other (symbolic) bullet parameters on the SAME solver object gives the columns of a fresh one.',
+ 'C06': 'Also: unit_value/get_in after re-display (<<) equal the factor-table values.',
+ 'C07': 'C07.compute: Unit.__call__ / PreferredUnits.<slot>(quantity) keep the magnitude; C07.globals: defaults are read when used, not frozen at import or first use.',
+ 'C08': 'C08.bare_altitude: bare altitude numbers are read in the preferred distance unit (every unit).',
+ 'C09': 'Also: dict rows in either key order; C09.bc re-initialises one solver object for a second shot with another BC/table (no stale drag data).',
+ 'C10': 'Also: C10.result_object (results of earlier calls are not changed by later ones; shared Atmo between shots), carrier without bullet dimensions, climbing carrier, zero requests that raise, aliasing of the old zero quantity.',
+ 'C11': 'Also: record steps finer than the integration step (0.5/0.4/0.13 of it), nothing returned besides the recorded rows (except the documented padding row).',
+ 'C12': 'Also: calm segment after a windy one, winds assigned through the setter, Wind objects edited in place between shots, default wind not shared between shots, single wind, inclined sight line (until-distance is down-range distance).',
+ 'C13': 'Also: set_weapon_zero through a recording solver as one of the operations.',
+ 'C14': 'C14.bcpoint: BCPoint from a velocity in every unit, bare and explicit, again after the preferred unit changed; rejections.',
+ 'C15': 'Also: sight below bore / barrel pointing below the line from above (above_down), 30 mph head wind on the Mach carrier (air-relative Mach), integration reaches the range.',
+ 'C16': 'C16.noextra: a result computed without extra data rejects the query.',
+ 'C17': 'Also: powder temperature as a bare number (0 and negatives included) under every preferred temperature unit; C17.reuse: one solver object and the same Ammo changed in place (calibrated, enabled, velocity reassigned) between initialisations.',
+ 'C18': 'Quick includes capitalised and blank-padded aliases; calculators created with and without non-step settings inside the global-step op sequences.',
+ 'C19': 'Also: corrections given in every angular unit, calibration distance and scale factor re-displayed in another unit before use, row-based adjustment with symbolic look angle (down-range distance, not sight-line distance).',
+ 'C20': 'Apex: also with a row flagged ZERO_DOWN before/after the peak.',
+}
+
 NOT_YET = {}
 
 def main():
@@ -165,7 +191,7 @@ def main():
             'replay_cmd_template': f'./check {pid} --replay {{path}}',
             'engine': 'symx',
             'level_claimed': {'category': 'other', 'text': c['text'], 'design_ref': c['ref']},
-            'level_note': c['note'],
+            'level_note': c['note'] + (' ' + ALSO[pid] if pid in ALSO else ''),
             'technique': c.get('technique', TECH),
         })
     na = []
